@@ -15,6 +15,7 @@ import (
 	"os"
 	"path"
 	"strings"
+	"syscall"
 )
 
 // handleCreate handles NFSPROC3_CREATE - create a file
@@ -121,6 +122,9 @@ func (h *NFSProcedureHandler) handleCreate(body io.Reader, reply *RPCReply, auth
 				if !regular {
 					// a directory or symlink is never the product of a CREATE
 					lookupErr = err
+				} else if limit := h.server.handler.policy.Load().MaxFileSize; !isExclusive && setSize && limit > 0 && newSize > uint64(limit) {
+					lookupErr = syscall.EFBIG
+					err = syscall.EFBIG
 				} else if !isExclusive && setSize && newSize <= uint64(math.MaxInt64) {
 					if truncErr := existingNode.Truncate(int64(newSize)); truncErr == nil {
 						h.server.handler.attrCache.Invalidate(lookupPath)
